@@ -114,3 +114,40 @@ func C04_ManyTypes() {
 	r.assertAgree("manytypes")
 	verif.Reach("compared")
 }
+
+// C04_Inside: a bind statement written inside a block (legal: bind is a
+// declaration): candidates are the toplevel blocks completed so far - the
+// enclosing, unfinished block is not one - and the binding is recorded as at
+// toplevel; then a third and fourth bind (one warning per repeated bind).
+func C04_Inside() {
+	g := &c02Gen{values: map[string]any{}}
+	g.src += "def t \"s1\" {\n"
+	g.stmt("f = K")
+	g.src += "}\n"
+	depth := verif.Choice("depth", 3) // 0: toplevel, 1: inside a t block, 2: inside a child
+	typ := []string{"t", "u"}[verif.Choice("enclosing", 2)]
+	switch depth {
+	case 1:
+		g.src += "def " + typ + " \"s2\" {\n"
+		g.stmt("f = K")
+	case 2:
+		g.src += "def " + typ + " \"s2\" {\n def t \"inner\" {\n"
+	}
+	bind := c04Binds[verif.Choice("bind", 9)]
+	g.src += bind + "\n"
+	switch depth {
+	case 1:
+		g.stmt("g = K")
+		g.src += "}\n"
+	case 2:
+		g.src += " }\n}\n"
+	}
+	for i, n := 0, verif.Choice("more", 3); i < n; i++ {
+		g.src += bind + "\n"
+	}
+	g.src += "def t \"s3\" {\n}\n"
+	r := runBoth(g.src, g.values)
+	verif.Observe("err", errClass(r.Real.Err))
+	r.assertAgree("inside")
+	verif.Reach("compared")
+}
